@@ -34,6 +34,8 @@ TIMEOUT = {'quick': 90, 'thorough': 600}
 
 def jobs(tier):
     import pandas  # noqa
+    from vlib import selfcheck
+    selfcheck.check_sympd()      # the pandas stand-in must agree with the real pandas on the operations the code uses
     out = [{'cond': c, 'weight': 10, 'label': c} for c in CONDS]
     for lpos in range(4):
         for order in (2, 3):
